@@ -135,30 +135,33 @@ def doSpinFlip (ch : Rat → Rat) (bm : List (List (Nat × Rat))) (biases : List
 
 /-! ### edge move -/
 
-/-- `enable_edge_importance_sampling(true)`: running sums of the *signed* `J` and their total -/
+def absR (x : Rat) : Rat := if x < 0 then -x else x
+
+/-- `enable_edge_importance_sampling(true)`: running sums of `|J|` and their total -/
 def cumTable (edges : List Edge) : List Rat × Rat :=
-  edges.foldl (fun (acc : List Rat × Rat) e => (acc.1 ++ [acc.2 + e.2], acc.2 + e.2)) ([], 0)
+  edges.foldl (fun (acc : List Rat × Rat) e => (acc.1 ++ [acc.2 + absR e.2], acc.2 + absR e.2)) ([], 0)
 
-def strictlyIncreasing : List Rat → Bool
-  | a :: b :: t => decide (a < b) && strictlyIncreasing (b :: t)
-  | _ => true
+/-- the `cumulative_weight` field after `enable_edge_importance_sampling(enable)`:
+the table when enabled and `Σ|J| > 0`, otherwise `None` (uniform selection) -/
+def importanceTable (edges : List Edge) (enable : Bool) : Option (List Rat × Rat) :=
+  if enable then (if (cumTable edges).2 > 0 then some (cumTable edges) else none) else none
 
-/-- edge selection of `do_edge_flip`. Importance sampling: `p = gen_range(0.0..total)` (panics for
-`total ≤ 0`, finding F13), index = `binary_search` of `p` in the table = number of entries `< p`
-when the table is strictly increasing (otherwise the result depends on the `core` version:
-flagged as a tie). Uniform: `gen_range(0..edges.len())`. The choice never looks at the state. -/
+/-- edge selection of `do_edge_flip`. Importance sampling: `p = gen_range(0.0..total)`, index =
+`binary_search` of `p` in the (non-decreasing) table = number of entries `< p` (an exact hit
+returns that entry's index or, among equal entries, a std-dependent one: margin 0 = tie).
+Uniform: `gen_range(0..edges.len())`. The choice never looks at the state. -/
 def pickEdge (nedges : Nat) (cum : Option (List Rat × Rat)) (rs : RS) : Nat × RS :=
   match cum with
   | some (table, total) =>
     let (p, rs1) := rs.genRangeF total
     let rs2 := table.foldl (fun r v => r.noteMargin (v - p)) rs1
-    let rs3 := if strictlyIncreasing table then rs2 else rs2.noteMargin 0
-    ((table.filter (· < p)).length, rs3)
+    ((table.filter (· < p)).length, rs2)
   | none => rs.genRange nedges
 
-/-- `do_edge_flip` -/
+/-- `do_edge_flip` (no-op without any draw on a graph without edges) -/
 def doEdgeFlip (ch : Rat → Rat) (edges : List Edge) (bm : List (List (Nat × Rat)))
     (biases : List Rat) (cum : Option (List Rat × Rat)) (x : List Bool × RS) : List Bool × RS :=
+  if edges.isEmpty then x else
   let (idx, rs1) := pickEdge edges.length cum x.2
   match edges[idx]? with
   | none => (x.1, { rs1 with panicked := true })
@@ -302,7 +305,7 @@ structure Sampler where
 
 def Sampler.new (edges : List Edge) (biases : List Rat) (importance : Bool) : Sampler :=
   { edges, biases, bm := bindingMat edges biases.length,
-    cum := if importance then some (cumTable edges) else none }
+    cum := importanceTable edges importance }
 
 /-- `do_time_step(beta, nspin, nedge, nworm, only_basic_moves)`; `ch` is `ΔE ↦ exp(−βΔE)`.
 Draw order: `U8(2|3)`, then the chosen move repeated. -/
@@ -384,15 +387,13 @@ def spinRow (ch : Rat → Rat) (bm : List (List (Nat × Rat))) (biases : List Ra
     let a := accProb ch (spinDelta bm biases s i)
     [(a / (n : Rat), flipAt s i), ((1 - a) / (n : Rat), s)]
 
-/-- selection probabilities of the edge move (uniform, or from the importance table when it is
-increasing: `P(k) = (max(v_k,0) − max(v_{k-1},0)) / total`) -/
+/-- selection probabilities of the edge move: uniform, or `|J_k| / Σ|J|` from the importance table -/
 def edgeSel (g : Sampler) : List Rat :=
   match g.cum with
   | none => g.edges.map fun _ => 1 / (g.edges.length : Rat)
   | some (table, total) =>
-    let pos (x : Rat) : Rat := if x < 0 then 0 else x
     (List.range table.length).map fun k =>
-      (pos (table.getD k 0) - (if k = 0 then 0 else pos (table.getD (k - 1) 0))) / total
+      (table.getD k 0 - (if k = 0 then 0 else table.getD (k - 1) 0)) / total
 
 def edgeRow (ch : Rat → Rat) (g : Sampler) (s : List Bool) : List (Rat × List Bool) :=
   ((g.edges.zip (edgeSel g))).flatMap fun (e, q) =>
